@@ -322,7 +322,7 @@ Section Frame.
   Proof. intro H. destruct m; simpl; [apply hsafe_ret; exact H | apply hsafe_alloc; exact H]. Qed.
 
   (* ---- adapt_typehints on a fresh value writes only fresh containers and returns a fresh value *)
-  Lemma adapt_safe m t : fsafe (adapt m t).
+  Lemma adapt_safe m t : fsafe (adapt fx m t).
   Proof.
     induction t; intros v Hv; simpl.
     - destruct v; try apply hsafe_fail; [apply hsafe_ret; auto|].
@@ -334,11 +334,19 @@ Section Frame.
         eapply hsafe_bind; [apply list_loop_safe; auto|]. intros _ _. apply hsafe_ret. simpl. apply Nat.leb_le. exact Hr.
       + eapply hsafe_bind; [apply hsafe_read_fresh; exact Hv|]. intros c Hc.
         destruct c; try apply hsafe_fail. simpl in Hv. apply Nat.leb_le in Hv.
-        eapply hsafe_bind; [apply list_loop_safe; auto|]. intros _ _. apply hsafe_ret. simpl. apply Nat.leb_le. exact Hv.
+        destruct fx.
+        * eapply hsafe_bind; [apply hsafe_alloc; exact Hc|]. intros r Hr.
+          destruct r; try apply hsafe_fail. simpl in Hr. apply Nat.leb_le in Hr.
+          eapply hsafe_bind; [apply list_loop_safe; auto|]. intros _ _. apply hsafe_ret. simpl. apply Nat.leb_le. exact Hr.
+        * eapply hsafe_bind; [apply list_loop_safe; auto|]. intros _ _. apply hsafe_ret. simpl. apply Nat.leb_le. exact Hv.
     - destruct v; try apply hsafe_fail.
       eapply hsafe_bind; [apply hsafe_read_fresh; exact Hv|]. intros c Hc.
       destruct c; try apply hsafe_fail. simpl in Hv. apply Nat.leb_le in Hv.
-      eapply hsafe_bind; [apply dict_loop_safe; auto|]. intros _ _. apply hsafe_ret. simpl. apply Nat.leb_le. exact Hv.
+      destruct fx.
+      * eapply hsafe_bind; [apply hsafe_alloc; exact Hc|]. intros r Hr.
+        destruct r; try apply hsafe_fail. simpl in Hr. apply Nat.leb_le in Hr.
+        eapply hsafe_bind; [apply dict_loop_safe; auto|]. intros _ _. apply hsafe_ret. simpl. apply Nat.leb_le. exact Hr.
+      * eapply hsafe_bind; [apply dict_loop_safe; auto|]. intros _ _. apply hsafe_ret. simpl. apply Nat.leb_le. exact Hv.
     - eapply hsafe_bind; [apply seq_items_safe; exact Hv|]. intros xs Hxs.
       destruct xs as [|x [|x' xs]]; try apply hsafe_fail.
       simpl in Hxs. rewrite andb_true_r in Hxs.
@@ -352,7 +360,7 @@ Section Frame.
     - destruct v; try (apply IHt; exact Hv). apply hsafe_ret. reflexivity.
   Qed.
 
-  Lemma adapt_hsafe m t x : refs_ge n x = true -> hsafe (adapt m t x) (fun r => refs_ge n r = true).
+  Lemma adapt_hsafe m t x : refs_ge n x = true -> hsafe (adapt fx m t x) (fun r => refs_ge n r = true).
   Proof. apply adapt_safe. Qed.
 
   (* ---- namespace item access *)
@@ -454,15 +462,15 @@ Section Frame.
   Notation any := (fun _ => True).
 
   (* ---- the building blocks of the operations *)
-  Lemma check_value_key_safe b d x : refs_ge n x = true -> safe (check_value_key b d x) fresh.
+  Lemma check_value_key_safe b d x : refs_ge n x = true -> safe (check_value_key fx b d x) fresh.
   Proof.
     intro Hx. unfold check_value_key.
-    assert (Hb : safe (bracket G_PARENT 1 (bracket G_PATHDIR 0 (lift (adapt Deser (d_ty d) x)))) fresh).
+    assert (Hb : safe (bracket G_PARENT 1 (bracket G_PATHDIR 0 (lift (adapt fx Deser (d_ty d) x)))) fresh).
     { apply safe_bracket, safe_bracket, safe_lift, adapt_hsafe. exact Hx. }
     destruct x, b; auto. apply safe_ret. reflexivity.
   Qed.
 
-  Lemma apply_actions_safe p b cfg : refs_ge n cfg = true -> safe (apply_actions p b cfg) any.
+  Lemma apply_actions_safe p b cfg : refs_ge n cfg = true -> safe (apply_actions fx p b cfg) any.
   Proof.
     intro Hc. unfold apply_actions.
     eapply safe_bind; [apply safe_lift, ns_items_safe; exact Hc|]. intros kvs _.
@@ -624,7 +632,7 @@ Section Frame.
       apply parse_common_safe. exact Hm.
   Qed.
 
-  Lemma dump_cleanup_safe p sv c : hdl c -> safe (dump_cleanup p sv c) any.
+  Lemma dump_cleanup_safe p sv c : hdl c -> safe (dump_cleanup fx p sv c) any.
   Proof.
     intro Hc. unfold dump_cleanup.
     apply (safe_miter _ (fun _ => True)); [|apply Forall_True]. intros d _.
@@ -633,7 +641,7 @@ Section Frame.
     assert (Hc' : refs_ge n c = true). { destruct Hor as [H|H]; [exact H | subst; discriminate]. }
     pose proof (aget_forallb _ _ _ _ Hk E) as Hx.
     assert (Hgen : safe (y <-- bracket G_PARENT 1
-                           (if sv then catch (lift (adapt Ser (d_ty d) x)) (ret x) else lift (adapt Ser (d_ty d) x)) ;;
+                           (if sv then catch (lift (adapt fx Ser (d_ty d) x)) (ret x) else lift (adapt fx Ser (d_ty d) x)) ;;
                          lift (ns_set c (d_key d) y)) any).
     { eapply (safe_bind _ _ fresh).
       - apply safe_bracket. destruct sv.
@@ -882,10 +890,10 @@ Ltac rst :=
       | |- restores (if ?x then _ else _) => destruct x
       end ].
 
-Lemma check_value_key_restores b d x : restores (check_value_key b d x).
+Lemma check_value_key_restores fx b d x : restores (check_value_key fx b d x).
 Proof. unfold check_value_key. rst. Qed.
 #[global] Hint Resolve check_value_key_restores : rstdb.
-Lemma apply_actions_restores p b c : restores (apply_actions p b c).
+Lemma apply_actions_restores fx p b c : restores (apply_actions fx p b c).
 Proof. unfold apply_actions. rst. Qed.
 #[global] Hint Resolve apply_actions_restores : rstdb.
 Lemma get_defaults_restores fx p : restores (get_defaults fx p).
@@ -905,7 +913,7 @@ Proof. unfold parse_object, parse_object_tail, ns_of_arg. rst. Qed.
 Lemma parse_string_restores fx p cs r : restores (parse_string fx p cs r).
 Proof. unfold parse_string. rst. Qed.
 #[global] Hint Resolve parse_object_restores parse_string_restores : rstdb.
-Lemma dump_cleanup_restores p sv c : restores (dump_cleanup p sv c).
+Lemma dump_cleanup_restores fx p sv c : restores (dump_cleanup fx p sv c).
 Proof. unfold dump_cleanup. rst. Qed.
 #[global] Hint Resolve dump_cleanup_restores : rstdb.
 Lemma dump_restores fx p sv c : restores (dump fx p sv c).
@@ -942,3 +950,15 @@ Definition bracket_nofinally {A} (x : nat) (v : N) (body : M A) : M A :=
     end.
 Lemma nofinally_leaks : exists s, s_g (out_st (bracket_nofinally G_CWD 1 (@fail unit) s)) G_CWD <> s_g s G_CWD.
 Proof. exists (mkst [] g0). vm_compute. discriminate. Qed.
+
+(* any nest of try/finally regions around any body that itself restores the globals restores them,
+   however the body ends (induction over the nesting) *)
+Lemma regions_restore {A} (gs : list nat) (body : M A) : restores body -> restores (regions gs body).
+Proof. intro Hb. induction gs as [|g r IH]; simpl; [exact Hb | apply restores_bracket; exact IH]. Qed.
+
+Theorem aux_restore_thm :
+  forall (entry : N) (fails : bool) (s : st) (x : nat), s_g (out_st (aux_run entry fails s)) x = s_g s x.
+Proof.
+  intros entry fails. change (restores (aux_run entry fails)). unfold aux_run. apply regions_restore.
+  destruct fails; [apply restores_fail | apply restores_ret].
+Qed.
